@@ -208,7 +208,7 @@ def windows(n, with_empty=True):
     if n > 8:
         # threshold extension (run_jobs): large grids are evaluated on representative windows only - whole grid, one
         # short at either end, inner, a short one at either end and a point-like one
-        reps = [(0, n), (0, n - 1), (1, n), (1, n - 1), (0, 2), (n - 2, n), (n // 2, n // 2 + 1)]
+        reps = [(0, n), (1, n), (1, n - 1), (0, 2), (n // 2, n // 2 + 1)]
         return out + [w_ for i, w_ in enumerate(reps) if w_ not in reps[:i]]
     for s in range(n):
         for e in range(s + 1, n + 1):
@@ -541,7 +541,7 @@ def run_jobs(chk, unit, rule, jobs, procs=None, view=None, _extension=False):
                     continue
                 seen.add(key)
                 for k_ in ks:
-                    ext.append((mod, fn, dict(base, ns=[k_ + 1, k_ + 2])))
+                    ext.append((mod, fn, dict(base, ns=[k_ + 2])))
             if ext:
                 chk.notes["size_bound_extended_past_threshold"] = sorted(set(chk.notes.get(
                     "size_bound_extended_past_threshold", []) + ks))
